@@ -63,6 +63,7 @@ fn oracles() -> Vec<(&'static str, Enumerate, Check)> {
         ("c04_prog", o_solver::enum_prog_output, o_solver::check_program),
         ("c05_prog", o_solver::enum_prog_reask, o_solver::check_program),
         ("c01_prog", o_solver::enum_prog_answers, o_solver::check_program),
+        ("c11_rename", o_solver::enum_rename_prog, o_solver::check_rename_prog),
         ("c01_solve_all", o_solver::enum_prog_solve_all, o_solver::check_program),
         ("c02_prog", o_solver::enum_prog_cut, o_solver::check_program),
         ("c03_prog", o_solver::enum_prog_not, o_solver::check_program),
@@ -120,6 +121,11 @@ fn main() {
     let generated = cases.len();
     cases.sort();
     cases.dedup();
+    if args.iter().any(|a| a == "--list") {
+        // one case per line (JSON string): used to find the case on which the process itself died (stack overflow, abort)
+        for c in &cases { println!("{}", jstr(c)); }
+        return;
+    }
     let mut fails = 0;
     let mut shown = 0;
     for c in &cases {
